@@ -312,7 +312,9 @@ def reporter_view(o, reporter, scen):
             if k == "starting": per[name] = [0, 0]
             elif k == "failure" and name in per: per[name][0] = 1      # CUTE shows the first failure of a test only
             elif k == "error" and name in per: per[name][1] += 1
-        per = {k: tuple(x) for k, x in per.items()}
+            elif k == "success" and name in per: per[name].append("ok")
+        tot["okset"] = sorted(k for k, x in per.items() if "ok" in x)
+        per = {k: tuple(x[:2]) for k, x in per.items()}
     elif reporter in ("xml", "libxml"):
         cases, errors = xml_testcases(o)
         if errors:
@@ -360,6 +362,10 @@ def check_C17(ctx):
                 continue
             if v != ref[0]:
                 errs.append(f"verdict under {r} is {v}, under text {ref[0]}")
+            if "okset" in tot and ref[2] is not None:
+                want = sorted(n for n, x in ref[2].items() if x[0] == 0 and x[1] == 0 and n in per)
+                if tot["okset"] != want:
+                    errs.append(f"{r} marks {tot['okset']} as successful, text shows no failure or exception for {want}")
             for key in tot:
                 if key in ref[1] and tot[key] != ref[1][key]:
                     errs.append(f"{r} reports {key}={tot[key]}, text reports {key}={ref[1][key]}")
@@ -382,3 +388,186 @@ def check_C17(ctx):
     ctx.coverage["evaluations"] = len(obs)
     ctx.coverage["distinct_nontrivial"] = len({s.text() for s in scens})
     ctx.coverage["reporters"] = reps
+
+
+# ---- C04 / C13: per-test framework state -------------------------------------------------------
+FW_ACTS = ["P", "F", "MF", "MC", "ML", "MG", "CU", "EC", "G2", "G12", "D", "W", "P", "CU", "D"]
+
+
+def gen_fw_test(rng, name, allow_read_global):
+    n = rng.choice([1, 2, 3, 4, 6])
+    acts = [rng.choice(FW_ACTS + (["R"] if allow_read_global else [])) for _ in range(n)]
+    if rng.random() < 0.15:
+        acts += ["MF"] * rng.choice([4, 5, 7, 9])     # many expectations left pending
+    return T(name, body=acts)
+
+
+def run_pertest_model(texts):
+    out = run_model(["pertest"], "".join(t + "---\n" for t in texts))
+    blocks, cur = [], {}
+    for l in out.split("\n"):
+        if l == "---":
+            blocks.append(cur); cur = {}
+        elif l.startswith("test "):
+            w = l.split(" ")
+            cur[w[1]] = [x for x in w[2:] if x]
+        elif l.startswith("error"):
+            raise RuntimeError(l)
+    return blocks
+
+
+def fw_observed(o, scen):
+    """Per test name: (failure lines, of which 'called too many times')."""
+    per = {t.name: [0, 0] for _, t in scen.root.tests()}
+    cur = None
+    for l in o.stdout.split("\n"):
+        m = re.match(r"^(.*?):(\d+): (Failure|Exception): (.*)$", l)
+        if m:
+            crumbs = [x for x in m.group(4).strip().split(" -> ") if x]
+            cur = crumbs[-1] if crumbs else None
+            if cur in per and m.group(3) == "Failure":
+                per[cur][0] += 1
+        elif cur in per and "was called too many times" in l:
+            per[cur][1] += 1
+    return {k: tuple(v) for k, v in per.items()}
+
+
+def fw_expected(res):
+    return {name: (sum(1 for r in rs if r in "FT"), sum(1 for r in rs if r == "T")) for name, rs in res.items()}
+
+
+def check_C04(ctx):
+    ok, out, failed = lean_check(ctx)
+    rng = random.Random(ctx.seed * 1000 + 4)
+    bench = Bench(ctx)
+    sets = []
+    for i in range(sizes(ctx, 40, 500)):
+        n = rng.choice([2, 3, 4, 5, 6])
+        tests = [gen_fw_test(rng, f"t{k}", allow_read_global=True) for k in range(n)]
+        if rng.random() < 0.3:
+            tests[rng.randrange(n)].body.append(rng.choice(["K11", "E", "S"]))   # tests may die or skip too
+        sets.append(tests)
+    scens, groups = [], []
+    for tests in sets:
+        orders = [list(tests)]
+        for _ in range(sizes(ctx, 4, 10)):
+            p = list(tests); rng.shuffle(p); orders.append(p)
+        for _ in range(2):
+            sub = [t for t in tests if rng.random() < 0.6]
+            if sub: orders.append(sub)
+        # nested variant: half of them in a sub-suite
+        g = []
+        for k, order in enumerate(orders):
+            if k % 3 == 2 and len(order) > 1:
+                root = S("top", items=[S("inner", items=[t.copy() for t in order[: len(order) // 2]])] + [t.copy() for t in order[len(order) // 2:]])
+            else:
+                root = S("top", items=[t.copy() for t in order])
+            g.append(len(scens)); scens.append(Scen(root, mode="fork"))
+        groups.append(g)
+    obs = bench.run_many([(s.text(), "text") for s in scens])
+    # pertest model takes scripts without the dying/skipping acts' effects: strip them for the model (they end/mark the test only)
+    def model_text(s):
+        c = s.copy()
+        for _, t in c.root.tests():
+            dies = any(a in ("K11", "E") for a in t.body)
+            # a test that dies never reaches the tally: what it left pending is not reported
+            t.body = [a for a in t.body if a not in ("K11", "E", "S") and not (dies and a == "MF")]
+        return c.text()
+    models = run_pertest_model([model_text(s) for s in scens])
+    ndis = 0
+    shown = 0
+    for g in groups:
+        ref = {}
+        for idx in g:
+            s, o, m = scens[idx], obs[idx], models[idx]
+            got = fw_observed(o, s)
+            exp = fw_expected(m)
+            for name in got:
+                if got[name] != exp.get(name):
+                    ndis += 1
+                    if ndis <= 3:
+                        ctx.oblige("correspondence C04 (per-test framework state)", False, f"test {name}: model {exp.get(name)} impl {got[name]} in\n{s.text()}")
+            # the property itself: the same test is reported the same in every order / subset
+            for name, v in got.items():
+                if name in ref and ref[name][0] != v and shown < 6:
+                    shown += 1
+                    ctx.violation(f"[C04] test {name} is reported as (failures, too-many-calls)={v} in one registration order and {ref[name][0]} in another",
+                                  "# two runs of the same tests in different orders / subsets (text reporter, forking mode)\n# run A:\n" + ref[name][1] + "\n# run B:\n" + s.text(),
+                                  found_input=True, facts={"mode": "fork"})
+                ref.setdefault(name, (v, s.text()))
+    ctx.oblige("correspondence C04: model and implementation agree on every generated run", ndis == 0, f"{ndis} disagreements")
+    ctx.coverage["correspondence"] = {"cases": len(scens), "disagreements": ndis, "oracle_evaluations": len(scens)}
+    ctx.coverage["samples"] = sample_of(scens, 2)
+    ctx.coverage["evaluations"] = len(scens)
+    ctx.coverage["distinct_nontrivial"] = len({s.text() for s in scens})
+    ctx.coverage["test_sets"] = len(sets)
+
+
+def check_C13(ctx):
+    ok, out, failed = lean_check(ctx)
+    rng = random.Random(ctx.seed * 1000 + 13)
+    bench = Bench(ctx)
+    scens = []
+    trip = []
+    for i in range(sizes(ctx, 60, 800)):
+        n = rng.choice([2, 3, 4, 5])
+        tests = [gen_fw_test(rng, f"t{k}", allow_read_global=False) for k in range(n)]
+        if rng.random() < 0.2:
+            tests.insert(rng.randrange(n), T("x", x=1, body=["P"]))
+        if rng.random() < 0.2:
+            tests[0].body.append("S")
+        root = S("top", items=[S("inner", items=[t.copy() for t in tests[:1]])] + [t.copy() for t in tests[1:]]) if i % 3 == 0 else S("top", items=[t.copy() for t in tests])
+        a = len(scens)
+        scens.append(Scen(root.copy(), mode="fork"))
+        scens.append(Scen(root.copy(), mode="inproc"))
+        singles = []
+        for t in tests:
+            if not t.x:
+                singles.append((t.name, len(scens)))
+                scens.append(Scen(root.copy(), mode="single:" + t.name))
+        trip.append((a, a + 1, singles))
+    obs = bench.run_many([(s.text(), "text") for s in scens])
+
+    def model_text(s):
+        c = s.copy()
+        for _, t in c.root.tests():
+            t.body = [a for a in t.body if a != "S"]
+        c.root.items = c.root.items
+        return c.text()
+    models = run_pertest_model([model_text(s) for s in scens])
+    ndis = shown = 0
+    for s, o, m in zip(scens, obs, models):
+        got = fw_observed(o, s)
+        exp = fw_expected(m)
+        for name, v in exp.items():
+            t = next(t for _, t in s.root.tests() if t.name == name)
+            if t.x:
+                continue
+            if got.get(name) != v:
+                ndis += 1
+                if ndis <= 3:
+                    ctx.oblige("correspondence C13 (per-test framework state)", False, f"test {name}: model {v} impl {got.get(name)} in\n{s.text()}")
+    for a, b, singles in trip:
+        fa, fb = fw_observed(obs[a], scens[a]), fw_observed(obs[b], scens[b])
+        ta, tb = observed_totals(obs[a], "text"), observed_totals(obs[b], "text")
+        errs = []
+        for name in fa:
+            if fa[name] != fb.get(name):
+                errs.append(f"test {name}: forked (failures, too-many-calls)={fa[name]}, CGREEN_NO_FORK {fb.get(name)}")
+        if ta != tb:
+            errs.append(f"totals forked {ta}, CGREEN_NO_FORK {tb}")
+        if status_of(obs[a]) != status_of(obs[b]):
+            errs.append(f"verdict forked {status_of(obs[a])}, CGREEN_NO_FORK {status_of(obs[b])}")
+        for name, idx in singles:
+            fs = fw_observed(obs[idx], scens[idx])
+            if fs.get(name) != fa.get(name):
+                errs.append(f"test {name}: forked {fa.get(name)}, run_single_test {fs.get(name)}")
+        if errs and shown < 6:
+            shown += 1
+            ctx.violation("[C13] " + "; ".join(errs[:3]), "# the same suite under the three execution modes (text reporter)\n" + scens[a].text() + "\n" + scens[b].text(), found_input=True,
+                          facts={"mode": "inproc"})
+    ctx.oblige("correspondence C13: model and implementation agree on every generated run", ndis == 0, f"{ndis} disagreements")
+    ctx.coverage["correspondence"] = {"cases": len(scens), "disagreements": ndis, "oracle_evaluations": len(trip)}
+    ctx.coverage["samples"] = sample_of(scens, 3)
+    ctx.coverage["evaluations"] = len(scens)
+    ctx.coverage["distinct_nontrivial"] = len({s.text() for s in scens})
